@@ -305,6 +305,7 @@ def specs(tier, seed):
     for ci, cell in enumerate(cells):
         for s in range(2 if tier == 'quick' else 8):
             out.append(dict(cell=cell, pattern='nearlinear3', copies=2, seed=seed * 1000 + 300 + s, decoys=2, bent=2, rng=s))
+            out.append(dict(cell=cell, pattern='collinear3', copies=2, seed=seed * 1000 + 350 + s, decoys=2, bent=2, rng=s))      # an exactly straight pattern, bent look-alikes
             out.append(dict(cell=cell, pattern='nearlinear3', copies=1, seed=seed * 1000 + 400 + s, decoys=1, bent=1, rng=s, hints=dict(axisp1_idx=0, axisp2_idx=2, opoint_idx=1)))
     # stress placements: copies sticking out through every face by (almost) their full length, in cubic and strongly tilted cells;
     # axis-aligned poses (incl. exactly antiparallel) of patterns written along x, y and z
